@@ -36,7 +36,7 @@ CHECKS = {
          "DESIGN.md section 4, C10"),
  "C11": ("static structural clauses: lock-set analysis of Share's per-application state with inferred 'requires lock' closures (SHARE-GUARDED), control dependence of the upstream subscribe site on the created-flag / no-live-connection guard (SINGLE-CONNECT), once-per-path reference-count pairing (REFCOUNT-PAIRING), guarded fields of the connectable observable (CONNECTABLE-GUARDED), configuration plumbing of ShareReplay",
          "Narrow claim. Event histories (subscribe/unsubscribe/notification/connect sequences) are NOT decided. Decided: the discipline that makes 'at most one live upstream subscription' true — connection state only touched under the mutex, upstream subscribed only where a new connection was installed / no live connection exists, reference count changed exactly once per (un)subscription under the lock with the zero test after the decrement.",
-         "Trusted: sync.Mutex; subjects honour C10. One read of Share's connection by its own creator before the source is subscribed is accepted structurally (see DESIGN.md, false alarm corrected).",
+         "Trusted: sync.Mutex; subjects honour C10.",
          "DESIGN.md section 4, C11"),
  "C13": ("static lock-set discipline (Eraser) by data-flow of held locks over go/cfg: fields of the goroutine-safe types (CONSISTENT-PROTECTION/types), closure variables of safe operators reachable from possibly-concurrent emission contexts (CONSISTENT-PROTECTION/operators), Share state, lock pairing",
          "Static discipline check: reports every location of the state the property names that is not consistently protected (atomic, concurrency-safe type, one common mutex, or ordered by S1-S4) — for 9 types (~220 field accesses) and the closure variables of all safe operators. It found the connectable-observable race (fixed; confirmed by the race detector). It does not prove absence of all races in the Go memory model and executes nothing.",
